@@ -424,7 +424,9 @@ func (s *JavaFullListener) EnterCreator(ctx *parser.CreatorContext) {
 
 	for _, identifier := range allIdentifiers {
 		createdName := identifier.GetText()
-		localVars[variableName] = createdName
+		if !isDeclaredVariable(variableName) {
+			localVars[variableName] = createdName
+		}
 
 		buildCreatorCall(createdName, ctx)
 
@@ -457,6 +459,10 @@ func (s *JavaFullListener) EnterCreator(ctx *parser.CreatorContext) {
 
 		currentCreatorNode = *creatorNode
 	}
+}
+
+func isDeclaredVariable(name string) bool {
+	return localVars[name] != "" || formalParameters[name] != "" || mapFields[name] != ""
 }
 
 func (s *JavaFullListener) ExitCreator(ctx *parser.CreatorContext) {
